@@ -120,6 +120,18 @@ CHECKS = {
             "the schedules that were executed, so absence of races is observed, not proved.",
             "TLA+ model of the cache: exhaustive TLC over interleavings; TLC-generated schedules replayed via gate hook; trace validation of hook-recorded critical sections; race detector",
             "5/C18"),
+    "C13": ("model_checking",
+            "Strobe.tla/Merlin.tla are parametric in the state cells and the permutation. Toy instance with an UNINTERPRETED permutation "
+            "(symbolic cells, the state carries its sponge transcript): TLC checks that history -> transcript is injective over all 6481 "
+            "Merlin histories of a toy universe with lengths around the rate boundary (so differing histories give different challenges "
+            "under an ideal permutation), the cursor invariants, and clone independence. Real instance with Keccak-f[1600] written out in "
+            "TLA+: TLC replays histories recorded through the public merlin API (appends, extractions, clones, RNG builders, witness "
+            "re-keying, finalisation, reads; a complete sweep of the cursor position in front of cipher operations plus lengths biased to "
+            "the block boundaries) and raw STROBE histories recorded inside internal/strobe (`more` continuations, cursor and full state "
+            "after every call) and the permutation alone, on both the assembly and the Go Keccak; every extracted byte must be equal.",
+            "Trusts TLC/SANY and the Bitwise Java overrides; injectivity is relative to the ideal-permutation assumption.",
+            "TLA+ STROBE/Merlin/Keccak spec: symbolic toy model checked by TLC + real-scale trace validation of recorded operation histories",
+            "5/C13"),
 }
 
 NOT_YET = "check not built yet in this round (planned, see DESIGN.md section 11); not claimed until its machinery exists"
